@@ -219,6 +219,24 @@ where
     Ok(())
 }
 
+/// The body of a failure reply. It is written while the connection's lock is held, to a client that may not be
+/// reading: it has to fit into the socket's buffer whatever the error quotes (a refused destination is the client's
+/// own text, up to 64 kB of it - that write blocked for good and everything that looks at the connection, like
+/// GET /api/live, blocked behind it).
+fn failure_text(error: &Error) -> String {
+    const MAX: usize = 1024;
+    let mut buf = format!("Error: {} Cause: {:?}", error, error.cause);
+    if buf.len() > MAX {
+        let mut cut = MAX;
+        while !buf.is_char_boundary(cut) {
+            cut -= 1;
+        }
+        buf.truncate(cut);
+        buf.push_str(" ...");
+    }
+    buf
+}
+
 struct ConnectCallback;
 #[async_trait]
 impl ContextCallback for ConnectCallback {
@@ -236,7 +254,7 @@ impl ContextCallback for ConnectCallback {
         if socket.is_none() {
             return;
         }
-        let buf = format!("Error: {} Cause: {:?}", error, error.cause);
+        let buf = failure_text(&error);
         if let Err(e) = HttpResponse::new(503, "Service unavailable")
             .with_header("Content-Type", "text/plain")
             .with_header("Content-Length", buf.as_bytes().len())
@@ -278,7 +296,7 @@ impl ContextCallback for FrameChannelCallback {
         if socket.is_none() {
             return;
         }
-        let buf = format!("Error: {} Cause: {:?}", error, error.cause);
+        let buf = failure_text(&error);
         if let Err(e) = HttpResponse::new(503, "Service unavailable")
             .with_header("Content-Type", "text/plain")
             .with_header("Content-Length", buf.as_bytes().len())
